@@ -270,6 +270,11 @@ def r2_ctor_setter_parity(ctx):
             wr = WRAPPED.get((st.qual, val), [])
             if wr:
                 has_type_guard = bool(TYPE_GUARDS.get((st.qual, val))) or any("isinstance" in norm(i.test) and "not isinstance" in norm(i.test) for i in raising_ifs(st.node))
+                if not has_type_guard:
+                    from sa.astutil import raise_conditions
+
+                    # `if isinstance(v, A): <range check> elif isinstance(v, B): pass else: raise` (also as a lowered match)
+                    has_type_guard = any(any((not pol) and norm(t).startswith(f"isinstance({val}, ") for t, pol in conds) and not any(pol and norm(t).startswith(f"isinstance({val}, ") for t, pol in conds) for _, conds in raise_conditions(st))
                 ctx.check(has_type_guard, f"{cq}.{name}#all-kinds", "values of other kinds are rejected by a type guard" if has_type_guard else f"the setter's range check only applies under {sorted({a for _, ap in wr for a in ap})}: other numeric kinds (e.g. numpy scalars) are stored unchecked", where=st, node=getattr(wr[0][0], "test", st.node))
             for s_ in sts:
                 ok = all(g.must_precede([gnode], sn) for gnode in gn for sn in g.nodes_of(s_))
@@ -412,7 +417,10 @@ def r7_range_expressions(ctx):
     """eval_range: a sequence is returned as list(values) (order kept), a number as [number], the placeholder '_' as ['_']; a string mentioning numpy is evaluated with only `numpy` in scope and converted element by element in order; ParameterValues iterates eval_range(self.values) in order and Readout evaluates its times through eval_range."""
     f = ctx.func("pyxel.evaluator:eval_range")
     v = f.params[0]
-    defs = {norm(val): [(norm(t), pol) for t, pol in enclosing_tests(s_)] for s_, val in local_defs(f, "values_lst") if val is not None}
+    from sa.astutil import result_sites
+
+    sites = result_sites(f)  # `values_lst = E ... return values_lst` and `return E` are the same sites
+    defs = {norm(val): [(norm(t), pol) for t, pol in enclosing_tests(s_)] for s_, val in sites}
     ok = f"list({v})" in defs and any(("isinstance" in t and "Sequence" in t and pol) for t, pol in defs.get(f"list({v})", []))
     ctx.check(ok, f.qual + "#sequence", "a sequence is returned as list(values)" if ok else "a literal list of values is not returned as given", where=f, node=f.node)
     ok = f"[{v}]" in defs
@@ -425,14 +433,15 @@ def r7_range_expressions(ctx):
         loc = expand(f, c.args[2]) if len(c.args) > 2 else None
         ok = ok and loc is not None and (norm(loc) in ("{}",) or (isinstance(loc, ast.Dict) and [getattr(k, "value", None) for k in loc.keys] == ["numpy"]))
     ctx.check(ok, f.qual + "#eval-scope", "expressions are evaluated with an empty scope or only `numpy`" if ok else "range expressions are evaluated with a wider scope", where=f, node=evs[0] if evs else f.node)
-    exp = [norm(expand(f, val)) if val is not None else "" for s_, val in local_defs(f, "values_lst")]
+    exp = [norm(expand(f, val)) for s_, val in sites]
     ok = f"list(eval({v}, {{}}, {{}}))" in exp
     ctx.check(ok, f.qual + "#plain-expression", "a plain expression becomes list(eval(text)) in order" if ok else "a plain list expression is not returned as list(<evaluated text>)", where=f, node=f.node)
-    comps = [val for s_, val in local_defs(f, "values_lst") if isinstance(val, ast.ListComp)]
+    comps = [val for s_, val in sites if isinstance(val, ast.ListComp)]
     ok = len(comps) == 2 and all(len(c.generators) == 1 and not c.generators[0].ifs and dotted(c.generators[0].iter) == "values_array" and norm(c.elt) in (f"float({norm(c.generators[0].target)})", f"int({norm(c.generators[0].target)})") for c in comps)
     ctx.check(ok, f.qual + "#numpy-order", "numpy results are converted element by element, in order, unfiltered" if ok else "numpy range results are filtered or reordered", where=f, node=comps[0] if comps else f.node)
+    # every way out hands back one of those result sites unchanged
     rets = [r for r in returns_of(f) if r.value is not None]
-    ok = len(rets) == 1 and dotted(rets[0].value) == "values_lst"
+    ok = bool(rets) and all(isinstance(r.value, ast.Name) or any(r is s_ for s_, _ in sites) for r in rets)
     ctx.check(ok, f.qual + "#return", "returns the list" if ok else "does not return the evaluated list", where=f, node=rets[0] if rets else f.node)
     it = ctx.func("pyxel.observation.parameter_values:ParameterValues.__iter__")
     txt = norm(it.node)
